@@ -23,7 +23,7 @@ EVENT_PROP = {
     "task_exit": {"C16", "C17"}, "spawn": {"C16"}, "req_cancelled": {"C16", "C17"},
     "extract_ok": {"C10", "C16"},
     "close_requested": {"C17"}, "accept_exit": {"C17"}, "graceful_done": {"C17"},
-    "waitgroup_done": {"C17"}, "close_returned": {"C17"}, "waiter_released": {"C17"},
+    "waitgroup_done": {"C17", "C16"}, "close_returned": {"C17"}, "waiter_released": {"C17"},
     "connect_after_stop": {"C17"}, "close_timeout": {"C17"}, "waiter_timeout": {"C17"},
     "client_noresp": {"C16", "C17", "C18"}, "client_timeout": {"C16", "C17", "C18"},
     "await_enter_timeout": {"C17", "C16"}, "await_step_timeout": {"C16"}, "await_end_timeout": {"C16"},
